@@ -22,6 +22,10 @@ JSp(r) ==
               ScalarSame(o.m0[j].proj, o.m1[j].proj, TS) /\ ScalarSame(o.m0[j].planar, o.m1[j].planar, TS))
         /\ ClauseAll(i, "C03.sp.points_equivariant", 1..Len(r.qs), LAMBDA j :
               PointMoved(T, o.m0[j].pp, o.m1[j].pp, TP) /\ PointMoved(T, o.m0[j].at, o.m1[j].at, TP))
+        \* queries far along the normal and barely off it: the scalars agree between the frames to 2^-26 RELATIVE
+        /\ ("far" \in DOMAIN r) => /\ Clause(i, "C03.sp.far_shape", Len(o.far) = Len(r.far))
+                                   /\ Len(o.far) = Len(r.far) => ClauseAll(i, "C03.sp.scalars_invariant_far", 1..Len(r.far), LAMBDA j :
+                                            AbsC(o.far[j].planar) <= 16 /\ AbsC(o.far[j].proj) <= 16)
         /\ r.dim = 3 =>
             /\ Clause(i, "C03.plane.normal_rotates", DirRotated(T, o.pl0.n, o.pl1.n, TN))
             /\ ClauseAll(i, "C03.plane.distances_invariant", 1..Len(r.qs), LAMBDA j :
@@ -68,6 +72,8 @@ JMesh(r) ==
     LET o == r.out T == r.T vp == DblSeq(r.vpos) IN
     /\ Clause(i, "C03.mesh.finite", o.finite)
     /\ Clause(i, "C03.mesh.vertices_move", SeqMoved(T, o.v0, o.v1, TP) /\ o.f0 = o.f1)
+    /\ Clause(i, "C03.mesh.normals_only_rotate", SeqRotated(T, o.vn0, o.vn1, TN) /\ SeqRotated(T, o.fn0, o.fn1, TN)
+                                                /\ Len(o.vn0) = Len(o.v0) /\ Len(o.fn0) = Len(o.f0))
     /\ Clause(i, "C03.mesh.shape", Len(o.c0) = Len(r.qs) /\ Len(o.c1) = Len(r.qs))
     /\ (Len(o.c0) = Len(r.qs) /\ Len(o.c1) = Len(r.qs)) =>
         /\ ClauseAll(i, "C03.mesh.distance_invariant", 1..Len(r.qs), LAMBDA j : ScalarSame(o.c0[j].dist, o.c1[j].dist, TS))
